@@ -7,6 +7,8 @@
 #include "pgp_keys.hh"
 #include <memory>
 #include <algorithm>
+#include <sys/stat.h>
+#include <unistd.h>
 
 using namespace sim;
 typedef CallasDonnerhackeFinneyShawThayerRFC4880 PGP;
@@ -39,6 +41,19 @@ static void load_key(const char *txt, tmcg_openpgp_pkalgo_t algo, const char *na
 		PGP::PacketPubEncode(TK, algo, p, q, g, y, k.pub);
 		gcry_mpi_release(p); gcry_mpi_release(q); gcry_mpi_release(g); gcry_mpi_release(y);
 	}
+	else if (algo == TMCG_OPENPGP_PKALGO_EDDSA)
+	{
+		// native point format: the 32 octets of q with the prefix 0x40
+		gcry_mpi_t q = NULL, ecpk = NULL; unsigned char raw[32], q40[33]; size_t n = 0;
+		gcry_sexp_extract_param(k.sexp, NULL, "/q", &q, NULL);
+		unsigned int nbits = 0; const void *qp = gcry_mpi_get_opaque(q, &nbits); n = (nbits + 7) / 8;
+		if (!qp || n > 32) { fprintf(stderr, "pgp: bad Ed25519 key\n"); exit(2); }
+		memset(raw, 0, sizeof(raw)); memcpy(raw + (32 - n), qp, n);
+		q40[0] = 0x40; memcpy(q40 + 1, raw, 32);
+		gcry_mpi_scan(&ecpk, GCRYMPI_FMT_USG, q40, sizeof(q40), NULL);
+		PGP::PacketPubEncode(TK, algo, tmcg_openpgp_oid_ed25519[0], tmcg_openpgp_oid_ed25519 + 1, ecpk, TMCG_OPENPGP_HASHALGO_UNKNOWN, TMCG_OPENPGP_SKALGO_PLAINTEXT, k.pub);
+		gcry_mpi_release(q); gcry_mpi_release(ecpk);
+	}
 	else
 	{
 		gcry_mpi_t q = NULL;
@@ -59,6 +74,7 @@ static void pgp_init(const Tier &)
 	load_key(PGP_KEY_ECDSA1, TMCG_OPENPGP_PKALGO_ECDSA, "ecdsa-p256");
 	load_key(PGP_KEY_DSA1, TMCG_OPENPGP_PKALGO_DSA, "dsa2048");
 	load_key(PGP_KEY_RSA2, TMCG_OPENPGP_PKALGO_RSA, "rsa2048-other");
+	load_key(PGP_KEY_ED1, TMCG_OPENPGP_PKALGO_EDDSA, "ed25519");
 }
 
 // re-encode one packet with a new body (new-format header, same tag)
@@ -68,6 +84,26 @@ static void repacket(tmcg_openpgp_byte_t tag, const tmcg_openpgp_octets_t &body,
 	PGP::PacketTagEncode(tag, out);
 	PGP::PacketLengthEncode(body.size(), out);
 	out.insert(out.end(), body.begin(), body.end());
+}
+
+static const Key &pick_key(const Plan &p)
+{
+	size_t k = (size_t)p.get("key", 0) % 4;       // 0 RSA, 1 ECDSA, 2 DSA, 3 EdDSA (g_keys[3] is the "other" RSA key)
+	return g_keys[k == 3 ? 4 : k];
+}
+
+// sign a hash with any of the test keys and encode the signature packet (appended to out)
+static gcry_error_t sign_any(const Key &K, const tmcg_openpgp_octets_t &hash, tmcg_openpgp_hashalgo_t H, const tmcg_openpgp_octets_t &trailer,
+	const tmcg_openpgp_octets_t &left, tmcg_openpgp_octets_t &out)
+{
+	gcry_mpi_t r = gcry_mpi_new(2048), s = gcry_mpi_new(2048);
+	gcry_error_t rc;
+	if (K.algo == TMCG_OPENPGP_PKALGO_RSA) { rc = PGP::AsymmetricSignRSA(hash, K.sexp, H, s); if (!rc) PGP::PacketSigEncode(trailer, left, s, out); }
+	else if (K.algo == TMCG_OPENPGP_PKALGO_DSA) { rc = PGP::AsymmetricSignDSA(hash, K.sexp, r, s); if (!rc) PGP::PacketSigEncode(trailer, left, r, s, out); }
+	else if (K.algo == TMCG_OPENPGP_PKALGO_EDDSA) { rc = PGP::AsymmetricSignEdDSA(hash, K.sexp, r, s); if (!rc) PGP::PacketSigEncode(trailer, left, r, s, out); }
+	else { rc = PGP::AsymmetricSignECDSA(hash, K.sexp, r, s); if (!rc) PGP::PacketSigEncode(trailer, left, r, s, out); }
+	gcry_mpi_release(r); gcry_mpi_release(s);
+	return rc;
 }
 
 struct World
@@ -93,7 +129,7 @@ static void make_doc(World &W, int cls, tmcg_openpgp_octets_t &doc)
 static void signature_case(World &W)
 {
 	const Plan &p = W.plan;
-	const Key &K = g_keys[(size_t)p.get("key", 0) % 3];
+	const Key &K = pick_key(p);
 	tmcg_openpgp_hashalgo_t H = HASHES[(size_t)p.get("hash", 0) % 5];
 	bool weak = ((size_t)p.get("hash", 0) % 5) >= 3;
 	time_t Ts = TK + (time_t)p.get("ts_off", 86400);       // signature creation (may lie before the key's)
@@ -107,12 +143,7 @@ static void signature_case(World &W)
 	tmcg_openpgp_octets_t trailer, hash, left, sigpkt;
 	PGP::PacketSigPrepareDetachedSignature(TMCG_OPENPGP_SIGNATURE_BINARY_DOCUMENT, K.algo, H, Ts, E, "", K.keyid, trailer);
 	if (!PGP::BinaryDocumentHash(doc, trailer, H, hash, left)) { W.res.cnt["probe.hash_unavailable"]++; return; }
-	gcry_mpi_t r = gcry_mpi_new(2048), s = gcry_mpi_new(2048);
-	gcry_error_t rc;
-	if (K.algo == TMCG_OPENPGP_PKALGO_RSA) { rc = PGP::AsymmetricSignRSA(hash, K.sexp, H, s); if (!rc) PGP::PacketSigEncode(trailer, left, s, sigpkt); }
-	else if (K.algo == TMCG_OPENPGP_PKALGO_DSA) { rc = PGP::AsymmetricSignDSA(hash, K.sexp, r, s); if (!rc) PGP::PacketSigEncode(trailer, left, r, s, sigpkt); }
-	else { rc = PGP::AsymmetricSignECDSA(hash, K.sexp, r, s); if (!rc) PGP::PacketSigEncode(trailer, left, r, s, sigpkt); }
-	gcry_mpi_release(r); gcry_mpi_release(s);
+	gcry_error_t rc = sign_any(K, hash, H, trailer, left, sigpkt);
 	if (rc) { W.res.cnt["probe.sign_failed"]++; return; }
 	// ---- artefact channel
 	tmcg_openpgp_octets_t body; tmcg_openpgp_byte_t tag = PGP::PacketBodyExtract(sigpkt, 0, body);
@@ -331,18 +362,14 @@ static void build_keyblock(const Key &K, time_t Ts, tmcg_openpgp_octets_t &all, 
 	flags.push_back(0x01 | 0x02);
 	PGP::PacketSigPrepareSelfSignature(TMCG_OPENPGP_SIGNATURE_POSITIVE_CERTIFICATION, K.algo, TMCG_OPENPGP_HASHALGO_SHA256, Ts, 0, flags, K.keyid, false, trailer);
 	PGP::CertificationHash(K.pub_hashing, uidstr, empty, trailer, TMCG_OPENPGP_HASHALGO_SHA256, hash, left);
-	gcry_mpi_t r = gcry_mpi_new(2048), s2 = gcry_mpi_new(2048);
-	if (K.algo == TMCG_OPENPGP_PKALGO_RSA) { if (!PGP::AsymmetricSignRSA(hash, K.sexp, TMCG_OPENPGP_HASHALGO_SHA256, s2)) PGP::PacketSigEncode(trailer, left, s2, sigpkt); }
-	else if (K.algo == TMCG_OPENPGP_PKALGO_DSA) { if (!PGP::AsymmetricSignDSA(hash, K.sexp, r, s2)) PGP::PacketSigEncode(trailer, left, r, s2, sigpkt); }
-	else { if (!PGP::AsymmetricSignECDSA(hash, K.sexp, r, s2)) PGP::PacketSigEncode(trailer, left, r, s2, sigpkt); }
-	gcry_mpi_release(r); gcry_mpi_release(s2);
+	(void)sign_any(K, hash, TMCG_OPENPGP_HASHALGO_SHA256, trailer, left, sigpkt);
 	all = K.pub; all.insert(all.end(), uid.begin(), uid.end()); all.insert(all.end(), sigpkt.begin(), sigpkt.end());
 }
 
 static void artefact_case(World &W)
 {
 	const Plan &p = W.plan;
-	const Key &K = g_keys[(size_t)p.get("key", 0) % 3];
+	const Key &K = pick_key(p);
 	int art = (int)(p.get("art", 0) % 3);          // 0 key block (key, user ID, certification), 1 detached signature, 2 SEIPD message
 	int dmg = (int)(p.get("fault", 0) % 7);        // 0 none, 1 body truncated (re-encoded), 2 body byte flipped, 3 packet dropped, 4 packet duplicated, 5 two packets exchanged, 6 body extended
 	int64_t fa = p.get("fa", 0), fb = p.get("fb", 0), fc = p.get("fc", 0);
@@ -357,11 +384,7 @@ static void artefact_case(World &W)
 		tmcg_openpgp_octets_t trailer, hash, left;
 		PGP::PacketSigPrepareDetachedSignature(TMCG_OPENPGP_SIGNATURE_BINARY_DOCUMENT, K.algo, TMCG_OPENPGP_HASHALGO_SHA256, Ts, 0, "", K.keyid, trailer);
 		PGP::BinaryDocumentHash(doc, trailer, TMCG_OPENPGP_HASHALGO_SHA256, hash, left);
-		gcry_mpi_t r = gcry_mpi_new(2048), s2 = gcry_mpi_new(2048);
-		if (K.algo == TMCG_OPENPGP_PKALGO_RSA) { if (!PGP::AsymmetricSignRSA(hash, K.sexp, TMCG_OPENPGP_HASHALGO_SHA256, s2)) PGP::PacketSigEncode(trailer, left, s2, all); }
-		else if (K.algo == TMCG_OPENPGP_PKALGO_DSA) { if (!PGP::AsymmetricSignDSA(hash, K.sexp, r, s2)) PGP::PacketSigEncode(trailer, left, r, s2, all); }
-		else { if (!PGP::AsymmetricSignECDSA(hash, K.sexp, r, s2)) PGP::PacketSigEncode(trailer, left, r, s2, all); }
-		gcry_mpi_release(r); gcry_mpi_release(s2);
+		(void)sign_any(K, hash, TMCG_OPENPGP_HASHALGO_SHA256, trailer, left, all);
 	}
 	else
 	{
@@ -432,6 +455,102 @@ static void artefact_case(World &W)
 	W.S.hist.add(H_RESULT, (uint64_t)outcome, (uint64_t)dmg, (uint64_t)art);
 }
 
+// ---- documents that live in files (the signer hashes a file, the file is stored or travels, the verifier hashes a file)
+static std::string scratch_file()
+{
+	static std::string name;
+	if (name.empty()) { (void)mkdir("build", 0777); (void)mkdir("build/scratch", 0777); name = "build/scratch/pgp-" + std::to_string((long)getpid()) + ".doc"; }
+	return name;
+}
+
+static bool put_file(const std::string &fn, const tmcg_openpgp_octets_t &d)
+{
+	FILE *f = fopen(fn.c_str(), "wb"); if (!f) return false;
+	bool ok = d.empty() || fwrite(&d[0], 1, d.size(), f) == d.size();
+	return (fclose(f) == 0) && ok;
+}
+
+static void file_case(World &W)
+{
+	const Plan &p = W.plan;
+	const Key &K = pick_key(p);
+	bool text = p.get("text", 0) != 0;
+	int fault = (int)(p.get("fault", 0) % 6);      // 0 none, 1 one byte replaced, 2 byte appended, 3 tail lost, 4 file gone, 5 byte inserted
+	int64_t fa = p.get("fa", 0), fb = p.get("fb", 0);
+	time_t Ts = TK + 86400;
+	// document: lines of seeded length with LF / CRLF / CR CR LF endings, tabs, blanks, NUL and high octets
+	tmcg_openpgp_octets_t doc;
+	int style = (int)(p.get("doc", 0) % 5);
+	size_t lines = (style == 0) ? 0 : 1 + W.S.gen.below(style == 4 ? 40 : 6);
+	for (size_t l = 0; l < lines; l++)
+	{
+		size_t len = (style == 3 && l == 0) ? 19000 + W.S.gen.below(1200) : W.S.gen.below(style == 2 ? 200 : 30);
+		for (size_t i = 0; i < len; i++)
+		{
+			unsigned c = (unsigned)W.S.gen.below(40);
+			tmcg_openpgp_byte_t b = (c == 0) ? 0x00 : ((c == 1) ? '\t' : ((c == 2) ? ' ' : ((c == 3) ? '\r' : ((c == 4) ? 0xFF : (tmcg_openpgp_byte_t)(0x21 + W.S.gen.below(94))))));
+			if (!text && c >= 30) b = (tmcg_openpgp_byte_t)W.S.gen.next();
+			doc.push_back(b);
+		}
+		unsigned e = (unsigned)W.S.gen.below(8);
+		if (l + 1 == lines && e == 0) break; // no final line ending
+		if (e == 1 || e == 2) doc.push_back('\r');
+		if (e == 2) doc.push_back('\r');
+		doc.push_back('\n');
+	}
+	std::string fn = scratch_file();
+	if (!put_file(fn, doc)) { W.res.cnt["probe.scratch_unwritable"]++; return; }
+	// ---- signer node
+	W.set_clock(0, Ts);
+	tmcg_openpgp_octets_t trailer, hash, left, sigpkt;
+	PGP::PacketSigPrepareDetachedSignature(text ? TMCG_OPENPGP_SIGNATURE_CANONICAL_TEXT_DOCUMENT : TMCG_OPENPGP_SIGNATURE_BINARY_DOCUMENT, K.algo, TMCG_OPENPGP_HASHALGO_SHA256, Ts, 0, "", K.keyid, trailer);
+	bool hashed = text ? PGP::TextDocumentHash(fn, trailer, TMCG_OPENPGP_HASHALGO_SHA256, hash, left) : PGP::BinaryDocumentHash(fn, trailer, TMCG_OPENPGP_HASHALGO_SHA256, hash, left);
+	if (!hashed) { W.res.cnt["probe.file_hash_refused"]++; remove(fn.c_str()); W.S.hist.add(H_RESULT, 99, (uint64_t)fault, text); return; } // e.g. a text line above the limit of 19994 characters
+	gcry_error_t rc = sign_any(K, hash, TMCG_OPENPGP_HASHALGO_SHA256, trailer, left, sigpkt);
+	if (rc) { W.res.cnt["probe.sign_failed"]++; remove(fn.c_str()); return; }
+	// ---- the stored file is damaged between the two nodes
+	tmcg_openpgp_octets_t d2 = doc; bool altered = false, gone = false; std::string what = "none";
+	auto eol = [](tmcg_openpgp_byte_t b) { return b == '\r' || b == '\n'; };
+	switch (fault)
+	{
+		case 1: if (!d2.empty())
+			{
+				// in text mode line endings are canonicalised: replace an octet that is neither CR nor LF by another such octet
+				size_t off = (size_t)fa % d2.size(), tries = 0;
+				while (text && eol(d2[off]) && tries < d2.size()) { off = (off + 1) % d2.size(); tries++; }
+				if (text && eol(d2[off])) break;
+				tmcg_openpgp_byte_t nb = (tmcg_openpgp_byte_t)(d2[off] ^ (1 << (fb % 8)));
+				if (text && eol(nb)) nb = (tmcg_openpgp_byte_t)(d2[off] ^ 0x40);
+				if (text && eol(nb)) break;
+				d2[off] = nb; altered = true; what = "octet " + std::to_string(off) + " of " + std::to_string(d2.size()) + " replaced"; W.res.cnt["fault.file_byte_replaced"]++;
+			} break;
+		case 2: { tmcg_openpgp_byte_t nb = (tmcg_openpgp_byte_t)fb; if (text && nb == '\r') nb = 'x'; d2.push_back(nb); altered = true; what = "one octet appended"; W.res.cnt["fault.file_appended"]++; } break;
+		case 3: if (!d2.empty())
+			{
+				size_t keep = (size_t)fa % d2.size(); bool significant = !text;
+				for (size_t i = keep; i < d2.size(); i++) if (d2[i] != '\r') significant = true;
+				d2.resize(keep); W.res.cnt["fault.file_tail_lost"]++;
+				if (significant) { altered = true; what = "file cut to " + std::to_string(keep) + " of " + std::to_string(doc.size()) + " octets"; }
+				else W.res.cnt["probe.file_cut_canonically_equal"]++;
+			} break;
+		case 4: gone = true; altered = true; what = "file removed"; W.res.cnt["fault.file_gone"]++; break;
+		case 5: { size_t off = d2.empty() ? 0 : (size_t)fa % (d2.size() + 1); tmcg_openpgp_byte_t nb = (tmcg_openpgp_byte_t)fb; if (text && eol(nb)) nb = 'y';
+				// an octet inserted in front of the CRs that end a line would be equal only if it were a CR itself
+				d2.insert(d2.begin() + off, nb); altered = true; what = "octet inserted at " + std::to_string(off); W.res.cnt["fault.file_byte_inserted"]++; } break;
+	}
+	if (gone) remove(fn.c_str()); else if (!put_file(fn, d2)) { W.res.cnt["probe.scratch_unwritable"]++; return; }
+	// ---- verifier node
+	W.set_clock(1, Ts + 10);
+	TMCG_OpenPGP_Signature *sig = NULL;
+	bool parsed = PGP::SignatureParse(sigpkt, 0, sig), verified = false;
+	if (parsed && sig) { verified = sig->Verify(K.sexp, fn, 0); delete sig; }
+	remove(fn.c_str());
+	W.S.hist.add(H_RESULT, (parsed ? 1 : 0) | (verified ? 2 : 0), (uint64_t)fault, text);
+	std::string id = std::string(text ? "text" : "binary") + " document in a file, " + std::to_string(doc.size()) + " octets, key=" + K.name;
+	if (!altered && fault == 0 && !verified) W.violate("C20", "file_signature_rejected", "signature made over a file does not verify over the same file; " + id);
+	if (altered && verified) W.violate("C20", std::string("altered_file_verifies_") + (text ? "text" : "binary"), "signature still verifies although " + what + "; " + id);
+}
+
 } // namespace
 
 static Plan pgp_generate(uint64_t seed, const Tier &tier)
@@ -442,13 +561,14 @@ static Plan pgp_generate(uint64_t seed, const Tier &tier)
 	unsigned r = (unsigned)g.below(10);
 	int kind = (r < 5) ? 0 : ((r < 7) ? 1 : ((r < 8) ? 2 : 3));
 	if (c12 && g.chance(1, 2)) kind = 3;
+	else if (!c12 && g.chance(1, 6)) kind = 4;
 	p.cfg["kind"] = kind;
 	p.cfg["doc"] = (int64_t)g.below(6);
 	p.cfg["fa"] = (int64_t)g.below(1 << 20); p.cfg["fb"] = (int64_t)g.below(8);
 	bool faults = tier.opt.count("nofaults") == 0;
 	if (kind == 0)
 	{
-		p.cfg["key"] = (int64_t)g.below(3); p.cfg["hash"] = g.chance(1, 6) ? (int64_t)g.range(3, 4) : (int64_t)g.below(3);
+		p.cfg["key"] = (int64_t)g.below(4); p.cfg["hash"] = g.chance(1, 6) ? (int64_t)g.range(3, 4) : (int64_t)g.below(3);
 		// clock faults: boundaries of the validity rules
 		static const long exps[] = { 0, 0, 1, 60, 3600, 86400 * 365 };
 		long E = exps[g.below(6)]; p.cfg["expiry"] = E;
@@ -460,9 +580,14 @@ static Plan pgp_generate(uint64_t seed, const Tier &tier)
 		unsigned f = (unsigned)g.below(16);
 		p.cfg["fault"] = !faults ? 0 : (c12 ? (int64_t)(6 + g.below(3)) : (f < 5 ? 0 : (int64_t)(1 + (f - 5) % 8)));
 	}
+	else if (kind == 4)
+	{
+		p.cfg["key"] = (int64_t)g.below(4); p.cfg["text"] = g.chance(2, 3) ? 1 : 0; p.cfg["doc"] = (int64_t)g.below(5); p.cfg["fb"] = (int64_t)g.below(256);
+		p.cfg["fault"] = !faults ? 0 : (g.chance(1, 4) ? 0 : (int64_t)g.range(1, 5));
+	}
 	else if (kind == 3)
 	{
-		p.cfg["key"] = (int64_t)g.below(3); p.cfg["art"] = (int64_t)g.below(3); p.cfg["fc"] = (int64_t)g.below(256);
+		p.cfg["key"] = (int64_t)g.below(4); p.cfg["art"] = (int64_t)g.below(3); p.cfg["fc"] = (int64_t)g.below(256); p.cfg["fb"] = (int64_t)g.below(1 << 20);
 		p.cfg["fault"] = !faults ? 0 : (int64_t)g.below(7);
 	}
 	else if (kind == 1) { unsigned f = (unsigned)g.below(12); p.cfg["fault"] = !faults ? 0 : (c12 ? (g.chance(1, 2) ? 2 : 6) : (f < 4 ? 0 : (int64_t)(1 + (f - 4) % 6))); }
@@ -501,9 +626,9 @@ static void pgp_enumerate(const Tier &tier, std::vector<Plan> &out)
 static RunResult pgp_execute(const Plan &plan)
 {
 	World W(plan);
-	int kind = (int)(plan.get("kind", 0) % 4);
-	if (kind == 0) signature_case(W); else if (kind == 1) message_case(W); else if (kind == 2) aead_case(W); else artefact_case(W);
-	W.res.cnt[kind == 0 ? "probe.signature_cases" : (kind == 1 ? "probe.seipd_cases" : (kind == 2 ? "probe.aead_cases" : "probe.artefact_cases"))]++;
+	int kind = (int)(plan.get("kind", 0) % 5);
+	if (kind == 0) signature_case(W); else if (kind == 1) message_case(W); else if (kind == 2) aead_case(W); else if (kind == 3) artefact_case(W); else file_case(W);
+	W.res.cnt[kind == 0 ? "probe.signature_cases" : (kind == 1 ? "probe.seipd_cases" : (kind == 2 ? "probe.aead_cases" : (kind == 3 ? "probe.artefact_cases" : "probe.file_cases")))]++;
 	W.res.fingerprint = W.S.hist.h ^ derive(plan.seed, 3); W.res.steps = 1; W.res.sim_ms = 0;
 	W.res.nontrivial = plan.get("fault", 0) != 0 || plan.get("now_off", 10) != 10 || plan.get("jump", 0) != 0;
 	return W.res;
